@@ -7,5 +7,11 @@ func (e *executor) other(t []string) (string, bool) {
 	if r, ok := e.hmacOp(t); ok {
 		return r, true
 	}
+	if r, ok := e.dialOp(t); ok {
+		return r, true
+	}
+	if r, ok := e.uriOp(t); ok {
+		return r, true
+	}
 	return "", false
 }
